@@ -11,10 +11,5 @@ CONSTANTS
   AckTails <- TailsRssi
   Bug = "retry_off_by_one"
 INVARIANT PropertyHolds
-INVARIANT StepFormHolds
 INVARIANT CompleteAtRest
-INVARIANT SafelinkIffEcho
-INVARIANT NeedsResendingIsNotSafelink
-INVARIANT Lockstep
-INVARIANT TypeOK
 CHECK_DEADLOCK FALSE
